@@ -585,6 +585,23 @@ def c05_override(R):
     )
     # make_like forwards overrides only for leaf-like ops
     ml = tree.func(BASE, "Base.make_like")
+    # the op set for which the receiver's metadata is reused contains leaf ops only (ops without AST arguments)
+    ao = [st for st in walk_no_nested(ml) if isinstance(st, ast.Assign) and ast.unparse(st.targets[0]) == "all_operations"]
+    R.need(len(ao) == 1, "make_like: `all_operations` not found")
+    ops_mod = tree.mod(OPS)
+    try:
+        opset = tree.eval_const(tree.mod(BASE), ao[0].value)
+    except Exception:  # noqa: BLE001
+        opset = None
+    leafs = tree.const(ops_mod, "leaf_operations")
+    R.check(
+        isinstance(opset, (set, frozenset)) and opset <= leafs,
+        tree.mod(BASE),
+        ao[0],
+        "make_like reuses the receiver's variables/symbolic for leaf ops only",
+        f"make_like reuses self.variables / self.symbolic for ops {sorted(set(opset or []) - set(leafs))} that have AST "
+        f"arguments: a node rebuilt with different arguments (replace, excavate_ite) keeps the old node's variables",
+    )
     for nm in ("variables", "symbolic"):
         sts = [st for st in walk_no_nested(ml) if isinstance(st, ast.Assign) and ast.unparse(st.targets[0]) == nm and ast.unparse(st.value) == f"self.{nm}"]
         for st in sts:
